@@ -1031,6 +1031,136 @@ func runCustom(c *Ctx, n int) {
 	}
 }
 
+// ------------------------------------------------------------------------------------------------
+// history: the output of Code.Run(v) is a function of the query and v alone — not of what the same Code
+// (or another Code compiled from the same parsed Query) was run on before
+
+var historyInputs = []string{
+	`{"s":"aXbxa","re":"x","flags":null}`, `{"s":"aXbxa","re":"x","flags":""}`, `{"s":"aXbxa","re":"x","flags":"g"}`,
+	`{"s":"aXbxa","re":"x","flags":"gi"}`, `{"s":"aXbxa","re":"x","flags":"ig"}`, `{"s":"aXbxa","re":"x","flags":"i"}`,
+	`{"s":"aXbxa","re":"x","flags":"z"}`, `{"s":"aXbxa","re":"x","flags":"gz"}`, `{"s":"aXbxa","re":"x","flags":"x"}`,
+	`{"s":"aXbxa","re":"x","flags":"n"}`, `{"s":"aXbxa","re":"x","flags":"is"}`, `{"s":"aXbxa","re":"x","flags":" "}`,
+	`{"s":"a\nb","re":"a.b","flags":"m"}`, `{"s":"a\nb","re":"a.b","flags":"s"}`, `{"s":"a\nb","re":"a.b","flags":"ms"}`,
+	`{"s":"aXbxa","re":"(","flags":""}`, `{"s":"aXbxa","re":"(","flags":"g"}`, `{"s":"aXbxa","re":"(","flags":"q"}`,
+	`{"s":"aXbxa","re":"X","flags":"l"}`, `{"s":"aXbxa","re":"X","flags":""}`, `{"s":"aXbxa","re":"(?i)x","flags":"p"}`,
+	`{"s":1425599507,"re":"%Y-%m-%dT%H:%M:%SZ","flags":"%j"}`, `{"s":"2015-03-05T23:51:47Z","re":"%Y-%m-%dT%H:%M:%SZ","flags":"%Q"}`,
+	`{"s":[1,2],"re":"a","flags":"g"}`, `{"s":"abc","re":1,"flags":2}`, `"aXbxa"`, `null`, `[1,[2],"x"]`, `{"a":1,"b":[2]}`,
+}
+
+var historyPrograms = []string{
+	`. as $o | .s | test($o.re; $o.flags)`, `. as $o | .s | [match($o.re; $o.flags)] | length`,
+	`. as $o | .s | sub($o.re; "-"; $o.flags)`, `. as $o | .s | gsub($o.re; "-"; $o.flags)`,
+	`. as $o | .s | [scan($o.re; $o.flags)]`, `. as $o | .s | [splits($o.re; $o.flags)]`, `. as $o | .s | split($o.re; $o.flags)`,
+	`. as $o | .s | capture($o.re; $o.flags)`, `. as $o | .s | [match([$o.re, $o.flags])]`, `. as $o | .s | test($o.re)`,
+	`. as $o | .s | ascii_downcase? | test($o.re; $o.flags)`, `. as $o | .s | (test($o.re; "g"), test($o.re; $o.flags))`,
+	`. as $o | .s | try test($o.re; $o.flags) catch "caught"`, `. as $o | .s | strftime($o.re)`, `. as $o | .s | strptime($o.re)`,
+	`. as $o | .s | strftime($o.flags)`, `. as $o | .s | ltrimstr($o.re)`, `. as $o | .s | split($o.re)`, `. as $o | .s | index($o.re)`,
+	`. as $o | .s | @base64`, `. as $o | .s | tojson`, `. as $o | .s | ascii`, `. as $o | .s | [limit(3; repeat($o.re))]`,
+	`.s |= 1`, `del(.re)`, `to_entries`, `[paths]`, `.flags // "none"`, `[.[]?] | sort`, `{a: .s} | .a`, `. as [$x] | $x`, `tostring`,
+}
+
+func decodeJSON(s string) any {
+	var v any
+	dec := json.NewDecoder(strings.NewReader(s))
+	dec.UseNumber()
+	dec.Decode(&v)
+	return v
+}
+
+func runCode(code *gojq.Code, input string) string {
+	var parts []string
+	func() {
+		defer func() {
+			if r := recover(); r != nil {
+				parts = append(parts, fmt.Sprintf("PANIC(%v)", r))
+			}
+		}()
+		it := code.RunWithContext(newStepCtx(60000), decodeJSON(input))
+		for i := 0; i < 12; i++ {
+			v, ok := it.Next()
+			if !ok {
+				break
+			}
+			parts = append(parts, render(v))
+			if _, isErr := v.(error); isErr {
+				break
+			}
+		}
+	}()
+	return strings.Join(parts, " ; ")
+}
+
+func runHistory(c *Ctx, n int, exclude map[string]bool) {
+	r := c.Rng
+	progs := append([]string{}, historyPrograms...)
+	for _, p := range ambientPrograms(c.Seed, n, exclude) {
+		if r.Chance(1, 6) {
+			progs = append(progs, p)
+		}
+	}
+	inputs := append([]string{}, historyInputs...)
+	inputs = append(inputs, ambientInputs...)
+	diffs := 0
+	report := func(p, in, how, fresh, warm string) {
+		diffs++
+		if diffs <= 5 {
+			c.Violation("history: query `%s` on input %s gives %q on a fresh Code but %q %s (no options given)", p, in, fresh, warm, how)
+		}
+	}
+	for _, p := range progs {
+		q, err := gojq.Parse(p)
+		if err != nil {
+			continue
+		}
+		warm, err := gojq.Compile(q)
+		if err != nil {
+			continue
+		}
+		// fresh results: a new Code (from a newly parsed Query) per input
+		fresh := make([]string, len(inputs))
+		for i, in := range inputs {
+			q1, _ := gojq.Parse(p)
+			c1, err := gojq.Compile(q1)
+			if err != nil {
+				fresh[i] = "C:" + err.Error()
+				continue
+			}
+			fresh[i] = runCode(c1, in)
+		}
+		// the same Code over all inputs in order, then in a random order (valid flags before and after invalid ones)
+		for i, in := range inputs {
+			if got := runCode(warm, in); got != fresh[i] {
+				report(p, in, fmt.Sprintf("on a Code that was run on inputs %s before", strings.Join(inputs[:i], " ")), fresh[i], got)
+			}
+			c.Nlines++
+		}
+		prev := "all inputs in order"
+		for k := 0; k < len(inputs); k++ {
+			i := r.Intn(len(inputs))
+			if got := runCode(warm, inputs[i]); got != fresh[i] {
+				report(p, inputs[i], "on a Code that was run on "+prev+" before", fresh[i], got)
+			}
+			prev = "all inputs in order, …, " + inputs[i]
+			c.Nlines++
+		}
+		// a second Code compiled from the SAME parsed Query after the first one has run
+		second, err := gojq.Compile(q)
+		if err != nil {
+			c.Violation("history: query `%s` compiles once but not a second time from the same parsed Query: %v", p, err)
+			continue
+		}
+		for k := len(inputs) - 1; k >= 0; k -= 1 + r.Intn(3) {
+			if got := runCode(second, inputs[k]); got != fresh[k] {
+				report(p, inputs[k], "on a second Code compiled from the same parsed Query", fresh[k], got)
+			}
+			c.Nlines++
+		}
+		c.Count("history")
+	}
+	c.Stats["history_programs"] = len(progs)
+	c.Stats["history_differences"] = diffs
+}
+
 func runImpl(c *Ctx) {
 	exclude := ""
 	for _, a := range c.Args {
@@ -1039,5 +1169,6 @@ func runImpl(c *Ctx) {
 		}
 	}
 	runAmbient(c, exclude)
+	runHistory(c, c.N, parseExclude(c.Args))
 	runCustom(c, c.N)
 }
